@@ -899,7 +899,45 @@ func (c *Ctx) ruleBatchOrder(rule string) {
 			continue // not a batch function
 		}
 		if loop == nil {
-			c.Rep.fail(rule, f.Short(), "batch loop is not a range over the items", c.P.pos(other), f.Short()+" enqueues its batch in a loop that is not a plain range over the caller's slice: the enqueue order is not evidently the caller's order")
+			// the index form over a slice parameter: for i := 0; i < len(items); i++ { item := items[i] ... }
+			good := false
+			if fs, ok := other.(*ast.ForStmt); ok && f.Type.Params != nil {
+				for _, fld := range f.Type.Params.List {
+					for _, nm := range fld.Names {
+						p := info.ObjectOf(nm)
+						if _, isSlice := p.Type().Underlying().(*types.Slice); !isSlice || !indexLoopOver(info, fs, p) {
+							continue
+						}
+						good = true
+						// every use of the parameter is len(p) or a read of p[i]
+						ast.Inspect(f.Body, func(n ast.Node) bool {
+							switch x := n.(type) {
+							case *ast.CallExpr:
+								if resolveCallee(info, x).Builtin == "len" && len(x.Args) == 1 && rootIdent(info, x.Args[0]) == p {
+									return false
+								}
+							case *ast.IndexExpr:
+								if id, ok := ast.Unparen(x.X).(*ast.Ident); ok && info.ObjectOf(id) == p {
+									return false
+								}
+							case *ast.AssignStmt:
+								for _, l := range x.Lhs {
+									if ix, ok := ast.Unparen(l).(*ast.IndexExpr); ok && rootIdent(info, ix.X) == p {
+										good = false // writes an element
+									}
+								}
+							case *ast.Ident:
+								if info.ObjectOf(x) == p {
+									good = false
+								}
+							}
+							return true
+						})
+					}
+				}
+			}
+			c.Rep.check(good, rule, f.Short(), "batch loop is not a range over the items", c.P.pos(other), "ascending index loop over the caller's slice",
+				f.Short()+" enqueues its batch in a loop that is neither a plain range nor an ascending index loop over the caller's slice (which it otherwise only measures and reads): the enqueue order is not evidently the caller's order")
 			continue
 		}
 		id, isId := ast.Unparen(loop.X).(*ast.Ident)
@@ -942,7 +980,6 @@ func (c *Ctx) ruleBatchOrder(rule string) {
 		})
 	}
 }
-
 
 // localOfField: e is a local variable whose only assignment reads the given field.
 func localOfField(f *Func, e ast.Expr, field string) bool {
